@@ -12,7 +12,7 @@ OUT = "/verif/seeded"
 
 # what the checks did on FIRST contact, before any rule was strengthened in response (from my session notes)
 # round 3 (third-generation rules, 10 properties): filled in from the confirmation records (first contact = the confirmation run)
-R3_MISSED = []
+R3_MISSED = "C19-3 C04-3 C05-2 C06-1 C08-1 C08-2 C08-3 C13-2 C14-3 C20-2 C20-3".split()
 FIRST = {
     "r1": dict(caught="C01-1 C01-2 C02-1 C02-2 C03-1 C03-2 C04-1 C04-2 C05-1 C05-2 C06-1 C09-1 C10-1 C11-2 C12-1 C12-2 C14-1 C15-1 C16-1 C16-2 "
                       "C18-1 C18-2 C19-1 C20-2".split(),
